@@ -139,6 +139,13 @@ def build_array(kind, cells, variant=0, shape=None, perm=None):
         a = np.ma.array(vals, dtype=("int64" if kind == "i" else "float64"))  # nomask form
     if shape is not None:
         a = a.reshape(shape)
+    if 50 <= variant < 90 and a.ndim >= 2:
+        # the same grid laid out column by column in memory (what a transposed view or a Fortran-ordered raster looks like)
+        a = np.ma.array(np.asfortranarray(np.ma.getdata(a)), mask=np.asfortranarray(np.ma.getmaskarray(a)))
+    if variant == 96 and kind != "i":
+        a = a.astype("float32")            # single-precision data (NetCDF rasters often are); lattice values are exact in float32
+    if variant == 97 and not any(mask):
+        a = np.asarray(np.ma.getdata(a))   # a complete array as a plain ndarray, not a masked array
     return a
 
 
@@ -190,8 +197,18 @@ def execute(cmd, params, arrays):
         kw["A"], kw["B"] = prods[0], prods[1]
     for name, v in params:
         kw[name] = conv_param(cls, name, v)
+    np = L["__numpy__"]
+
+    def in_range(a):
+        d = np.ma.getdata(a)[~np.ma.getmaskarray(a)]
+        return bool(d.size == 0 or (d.min() >= -1 and d.max() <= 1))
+
+    before = [fuzzy_in and in_range(a) for a in arrays]
     try:
         r = inst.execute(**kw)
+        # a finished fuzzy result that lay in [-1, +1] still does after having been consumed (C04 is about every result, whenever it is looked at)
+        if any(b and not in_range(a) for b, a in zip(before, arrays)):
+            return "Harness.FuzzyInputLeftRange", ""
         if REPEAT:
             # evaluating the same operator again on the same (finished) inputs gives the same result: an operator that
             # works in place on an input's stored result answers differently the second time
@@ -419,9 +436,11 @@ class Session(object):
                 chk.sample({"family": f.tag, "case": describe_case(rec["ins"], rec["obs"][0]), "spec_result": exp[0][2],
                             "observed": rec["obs"][0][2], "variant": label})
             for clause, cmd, e in verdicts[rid]:
-                if self.clauses is not None and clause not in self.clauses:
-                    continue
                 entry = rec["obs"][e - 1]
+                if isinstance(entry[2][0], str) and entry[2][0].startswith("Harness.") and entry[2][0] != "Harness.NoInput":
+                    clause = entry[2][0].split(".", 1)[1]      # what the execution wrapper saw is reported under every property that runs it
+                elif self.clauses is not None and clause not in self.clauses:
+                    continue
                 chk.finding("%s:%s:%s" % (prop, cmd, clause),
                             "%s: observation differs from EEMSOps.Sem (%s)" % (cmd, clause),
                             {"family": f.tag, "variant": label, "case": describe_case(rec["ins"], entry),
@@ -747,13 +766,13 @@ def check_C03(tier):
             raw.setdefault((f.tag, cmd, json.dumps(params), tuple(order)), []).append((variant, arrays, res))
         return h
 
-    variants = [0, 1, 2, 99] if tier == "quick" else [0, 1, 2, 3, 99]
+    variants = [0, 1, 2, 97, 99] if tier == "quick" else [0, 1, 2, 3, 97, 99]
     for f in fams:
         for v in variants:
             if v == 99 and f.L != 1 and tier == "quick" and f.fam == "cva":
                 # the reader is exercised on the packed families; array-level ones take one file per case
                 pass
-            s.add_family(f, variant=v, label="payload variant %s" % ("EEMSRead(MissingVal)" if v == 99 else v), raw_hook=hook(v))
+            s.add_family(f, variant=v, label="payload variant %s" % ("EEMSRead(MissingVal)" if v == 99 else "complete arrays as plain ndarrays" if v == 97 else v), raw_hook=hook(v))
     s.finish()
     # payload blindness: same inputs up to the numbers hidden beneath missing cells => same result, bit for bit
     nleak = 0
@@ -820,6 +839,9 @@ def check_C04(tier):
 
     for f in fams:
         s.add_family(f, variant=core.SEED % 4, label="1-D", raw_hook=hook)
+    for f in fams:
+        if f.fam != "cva" or f.L <= 3:
+            s.add_family(f, variant=96, label="1-D, single-precision data", raw_hook=hook)
     s.finish()
     stretch_C04(chk, 300 if tier == "quick" else 5000)
     chk.cov["raw_range_checks"] = nraw[0]
@@ -916,7 +938,8 @@ def check_C05(tier):
             lab = "shape %s%s" % ("x".join(map(str, shape_fn_for(f, which)(max(f.L, 4) if f.L > 1 else len(f.cases)))) if which else "1-D",
                                   ", common permutation seed %d" % perm if perm is not None else "")
             n0 = len(base.records)
-            base.add_family(f, variant=0, shape_fn=shape_fn_for(f, which) if which else None, perm_seed=perm, label=lab)
+            base.add_family(f, variant=(50 if which in (2, 4) else 0), shape_fn=shape_fn_for(f, which) if which else None, perm_seed=perm,
+                            label=lab + (", column-major memory layout" if which in (2, 4) else ""))
             for rid in range(n0, len(base.records)):
                 labels[rid] = lab
     verdicts = validate(chk, base.records)
